@@ -4,6 +4,7 @@
 import VerdeModel.Model.Windows
 import VerdeModel.Lemmas.Coords
 import VerdeModel.Lemmas.MinMax
+import VerdeModel.Props.C08
 namespace Verde.C14
 open Verde
 
@@ -136,5 +137,82 @@ theorem neither_shape_nor_spacing_rejected (es ns : List Rat) (size : Rat) (regi
 example : windowIdx [0, 1, 2, 3, 7, 8] [0, 1, 2, 3, 7, 8] 1 1 1 = [0, 1, 2] := by decide +kernel
 example : (rollingWindow [0, 1, 2, 3, 7, 8] [0, 1, 2, 3, 7, 8] 2 ⟨some [0, 10, 0, 10], some (1, 3), none, .spacing⟩).toOption.map
     (fun o => (o.east, o.north, o.windows)) = some ([1, 5, 9], [1], [[0, 1, 2], [], []]) := by decide +kernel
+
+/-! ### Bridge: the window-centre grid of `rolling_window` regenerated from source -/
+
+theorem ratMin_not_lt {a b s : Rat} (h : ¬ ratMin a b < s) : s ≤ a ∧ s ≤ b := by
+  unfold ratMin at h
+  split_ifs at h with hb
+  · constructor <;> linarith
+  · constructor <;> linarith
+
+/-- In exact arithmetic the repair of finding D9 (collapse an inverted centre interval to the middle) is dead code: once the window
+    size has been checked against the region, the two bounds of the centre interval are never inverted — only round-off inverts them. -/
+theorem centre_interval_not_inverted (lo hi size : Rat) (h : size ≤ hi - lo) :
+    ¬ (lo + 1 * size / 2 > hi + (-1) * size / 2) := by
+  intro hc; linarith
+
+/-- **Bridge.**  `rolling_window` up to `centers = grid_coordinates(window_region, ...)` as regenerated STATEMENT BY STATEMENT from /repo's
+    source text on every run — the shape/spacing guard, the default region, `min(E - W, N - S) < size` → ValueError, the list comprehension
+    `dimension + (-1) ** (i % 2) * size / 2` unrolled over the four bounds, the loop over `((0, 1), (2, 3))` that collapses an inverted
+    centre interval (the repair of finding D9), and the call to the translated `grid_coordinates` core — equals the centre lines of the
+    model's `rollingWindow` for every point set, size, optional region, shape, spacing and adjust string, including which error is raised. -/
+theorem gen_rolling_centres_eq_model (es ns : List Rat) (size : Rat) (region : Option (Rat × Rat × Rat × Rat))
+    (shape : Option (Nat × Nat)) (spacing : Option (List Rat)) (adj : String) :
+    Gen.rollingCentres es ns size spacing (shape.map fun p => ((p.1 : Int), (p.2 : Int))) region adj
+      = (rollingWindow es ns size ⟨region.map C08.quadList, shape, spacing, C07.adjOf adj⟩).map fun o => (o.east, o.north) := by
+  unfold Gen.rollingCentres rollingWindow
+  by_cases hnone : shape = none ∧ spacing = none
+  · obtain ⟨h1, h2⟩ := hnone
+    subst h1; subst h2
+    simp [bind, Except.bind, throw, throwThe, MonadExceptOf.throw, Except.map]
+  · have hg : ¬ ((Option.map (fun p : Nat × Nat => ((p.1 : Int), (p.2 : Int))) shape).isNone = true ∧ spacing.isNone = true) := by
+      intro h; apply hnone
+      cases shape <;> cases spacing <;> simp_all
+    have hm : ¬ ((shape.isNone && spacing.isNone) = true) := by
+      intro h; apply hnone
+      cases shape <;> cases spacing <;> simp_all
+    simp only [hg, hm, if_false, Bool.false_eq_true]
+    cases region with
+    | some r =>
+      obtain ⟨w, e, s, n⟩ := r
+      simp only [blockRegion, Option.map, C08.quadList, bind, Except.bind, pure, Except.pure]
+      by_cases hsz : ratMin (e - w) (n - s) < size
+      · simp [hsz, throw, throwThe, MonadExceptOf.throw, Except.map]
+      · simp only [hsz, if_false]
+        obtain ⟨h1, h2⟩ := ratMin_not_lt hsz
+        have i1 := centre_interval_not_inverted w e size h1
+        have i2 := centre_interval_not_inverted s n size h2
+        have e1 : w + 1 * size / 2 = w + size / 2 := by ring
+        have e2 : e + (-1) * size / 2 = e - size / 2 := by ring
+        have e3 : s + 1 * size / 2 = s + size / 2 := by ring
+        have e4 : n + (-1) * size / 2 = n - size / 2 := by ring
+        have hb := C07.gen_grid_lines_eq_model (w + size / 2) (e - size / 2) (s + size / 2) (n - size / 2) shape spacing adj false
+        simp only [Option.map] at hb
+        rw [e1, e2] at i1; rw [e3, e4] at i2
+        simp only [e1, e2, e3, e4, i1, i2, if_false, hb]
+        cases gridLines [w + size / 2, e - size / 2, s + size / 2, n - size / 2] ⟨shape, spacing, C07.adjOf adj, false⟩ <;> rfl
+    | none =>
+      simp only [blockRegion, Option.map, C08.quadOfOpts_getRegion, bind, Except.bind, pure, Except.pure]
+      cases hgr : getRegion es ns with
+      | none => rfl
+      | some r =>
+        simp only []
+        by_cases hsz : ratMin (r.e - r.w) (r.n - r.s) < size
+        · simp [hsz, throw, throwThe, MonadExceptOf.throw, Except.map]
+        · simp only [hsz, if_false]
+          obtain ⟨h1, h2⟩ := ratMin_not_lt hsz
+          have i1 := centre_interval_not_inverted r.w r.e size h1
+          have i2 := centre_interval_not_inverted r.s r.n size h2
+          have e1 : r.w + 1 * size / 2 = r.w + size / 2 := by ring
+          have e2 : r.e + (-1) * size / 2 = r.e - size / 2 := by ring
+          have e3 : r.s + 1 * size / 2 = r.s + size / 2 := by ring
+          have e4 : r.n + (-1) * size / 2 = r.n - size / 2 := by ring
+          have hb := C07.gen_grid_lines_eq_model (r.w + size / 2) (r.e - size / 2) (r.s + size / 2) (r.n - size / 2) shape spacing adj false
+          simp only [Option.map] at hb
+          rw [e1, e2] at i1; rw [e3, e4] at i2
+          simp only [e1, e2, e3, e4, i1, i2, if_false, hb]
+          cases gridLines [r.w + size / 2, r.e - size / 2, r.s + size / 2, r.n - size / 2] ⟨shape, spacing, C07.adjOf adj, false⟩ <;> rfl
+
 
 end Verde.C14
